@@ -1,0 +1,128 @@
+//go:build verif
+
+package tlcp
+
+// Hooks for the C05 check (receiving record layer): extractPadding and halfConn.decrypt on
+// arbitrary bytes, one record through a connection's write state, error classification.
+// Add-only; compiled only with -tags verif.
+
+import (
+	"encoding/binary"
+	"errors"
+	"fmt"
+	"io"
+	"net"
+)
+
+// VerifRxExtractPadding runs extractPadding on arbitrary bytes.
+func VerifRxExtractPadding(payload []byte) (toRemove int, good byte, panicked string) {
+	defer func() {
+		if p := recover(); p != nil {
+			panicked = fmt.Sprint(p)
+		}
+	}()
+	toRemove, good = extractPadding(append([]byte(nil), payload...))
+	return
+}
+
+// VerifRxDecrypt builds the read half of a connection protected as suite id would be after
+// ChangeCipherSpec (key, iv and macKey as the key block would supply them), sets the sequence
+// number and runs halfConn.decrypt on a copy of record (header included).
+// alert is -1 on success, the alert description on failure.
+func VerifRxDecrypt(id uint16, key, iv, macKey []byte, seq uint64, record []byte) (plain []byte, typ byte, alertCode int, seqAfter uint64, panicked string) {
+	defer func() {
+		if p := recover(); p != nil {
+			panicked = fmt.Sprint(p)
+		}
+	}()
+	var hc halfConn
+	hc.version = VersionTLCP
+	s := cipherSuites[id]
+	if s != nil {
+		if s.aead != nil {
+			hc.cipher = s.aead(key, iv)
+		} else {
+			hc.cipher = s.cipher(key, iv, true)
+			hc.mac = s.mac(macKey)
+		}
+	}
+	binary.BigEndian.PutUint64(hc.seq[:], seq)
+	alertCode = -1
+	p, t, err := hc.decrypt(append([]byte(nil), record...))
+	seqAfter = binary.BigEndian.Uint64(hc.seq[:])
+	if err != nil {
+		if a, ok := err.(alert); ok {
+			alertCode = int(a)
+		} else {
+			alertCode = 256
+		}
+		return nil, 0, alertCode, seqAfter, ""
+	}
+	return append([]byte(nil), p...), byte(t), -1, seqAfter, ""
+}
+
+// VerifRxWriteRecord protects data as ONE record of type typ with the connection's current
+// write state (also an empty one, which writeRecordLocked never produces) and writes it to the
+// transport. The connection's sequence number advances as for any other record.
+func VerifRxWriteRecord(c *Conn, typ uint8, data []byte) error {
+	c.out.Lock()
+	defer c.out.Unlock()
+	vers := c.vers
+	if vers == 0 {
+		vers = VersionTLCP
+	}
+	hdr := []byte{typ, byte(vers >> 8), byte(vers), byte(len(data) >> 8), byte(len(data))}
+	rec, err := c.out.encrypt(hdr, data, c.config.rand())
+	if err != nil {
+		return err
+	}
+	_, err = c.write(rec)
+	return err
+}
+
+// VerifErrKind classifies an error returned by Read / Write / Close / Handshake:
+// "nil", "eof", "unexpected_eof", "local_alert" / "remote_alert" (with the alert description),
+// "record_header", "closed" (net.ErrClosed), "shutdown", "timeout", "alert" (a bare alert value), "other".
+func VerifErrKind(err error) (kind string, code int) {
+	if err == nil {
+		return "nil", 0
+	}
+	if err == io.EOF {
+		return "eof", 0
+	}
+	if err == io.ErrUnexpectedEOF {
+		return "unexpected_eof", 0
+	}
+	if err == errShutdown {
+		return "shutdown", 0
+	}
+	if err == errEarlyCloseWrite {
+		return "early_closewrite", 0
+	}
+	var op *net.OpError
+	if errors.As(err, &op) {
+		if a, ok := op.Err.(alert); ok {
+			switch op.Op {
+			case "local error":
+				return "local_alert", int(a)
+			case "remote error":
+				return "remote_alert", int(a)
+			}
+		}
+	}
+	var rh RecordHeaderError
+	if errors.As(err, &rh) {
+		return "record_header", 0
+	}
+	if a, ok := err.(alert); ok {
+		return "alert", int(a)
+	}
+	if errors.Is(err, net.ErrClosed) {
+		return "closed", 0
+	}
+	var ne net.Error
+	if errors.As(err, &ne) && ne.Timeout() {
+		return "timeout", 0
+	}
+	return "other", 0
+}
